@@ -46,6 +46,17 @@ Theorem xml_faithful : forall toks e d s' rest,
   exists consumed, toks = consumed ++ rest /\ tree_evs d = tok_evs consumed /\ In e (t_kids d).
 Proof. exact xml_faithful_tokens. Qed.
 
+(* XML, several readers alive at once: for EVERY interleaving of the tokens of two readers, each
+   reader ends in the state it reaches alone - in the model the namespace table is per-reader
+   state.  (Trivial in the model; the correspondence harness checks the implementation against
+   it: every record a reader returns while other readers are alive equals the one it returns
+   alone.) *)
+Theorem xml_readers_independent : forall sched sa sb,
+  fold_left xstep2 sched (sa, sb) =
+  (xfeed sa (map snd (filter (fun ev => fst ev) sched)),
+   xfeed sb (map snd (filter (fun ev => negb (fst ev)) sched))).
+Proof. exact readers_independent. Qed.
+
 (* XML, prefixes: for EVERY document that is namespace-well-formed (ns_wf) and on which the
    reader's document-wide last-declaration-wins URI->prefix map holds, at every element and
    prefixed attribute, the prefix written there (lastwins_ok - a decidable predicate on the
